@@ -22,7 +22,7 @@ func init() {
 	core.Register(&core.Check{
 		ID:    "C06",
 		Level: "exploration",
-		Rule: "E-proc + child exit status: Close is injected at PRNG-chosen points of a running history (idle, mid-burst with a mutator goroutine writing into watched directories, reader parked in a blocked send, a watched path deleted and still unprocessed, a real queue overflow whose error nobody receives (Events drained first), concurrently with Add/Remove/WatchList and with 1-8 other Close calls) " +
+		Rule: "E-proc + child exit status: Close is injected at PRNG-chosen points of a running history (idle, mid-burst with a mutator goroutine writing into watched directories, reader parked in a blocked send, a watched path deleted and still unprocessed, a real queue overflow whose error nobody receives (Events drained first; and, in another batch, Close while the sender of the overflow error is held right before its select, released once the Watcher is marked closed), concurrently with Add/Remove/WatchList and with 1-8 other Close calls) " +
 			"x consumer {both, only Events, only Errors, neither until close, stops midway} x buffer {default,0,1,16,4096} x GOMAXPROCS {1,2,4,16}, PRNG delays at the verif yield points. Oracles: the child must not die with 'send on closed channel'/'close of closed channel' (any panic is a violation); " +
 			"every Close returns nil; once all Close calls have returned both channels must report closed (bounded progress; if not, the goroutine dump decides: no reader goroutine left => violated) after at most cap(Events) further values; afterwards Add => ErrClosed, Remove => nil, WatchList => nil, Close => nil, from several goroutines. " +
 			"distinct_nontrivial = distinct (close point, consumer, buffer, closers, procs) cases in which events were flowing (>=1 send probed) before Close",
@@ -73,6 +73,11 @@ func c06Case(c *core.Ctx, rng *rand.Rand, dir string, idx int, a *apiTrack, st *
 		// one REAL queue overflow per fourth batch: Events drained, the overflow error left pending, then Close
 		point, cons = "overflow-error-pending", "only-events"
 	}
+	if (idx == 3 || idx == 5) && c.Batch%4 == 2 && !c.Race {
+		// and one where Close comes at the very moment the last event in front of the overflow record has been
+		// received: the reader is just about to deal with the overflow record
+		point, cons = "overflow-close-at-last-event", "only-events"
+	}
 	procs := runtime.GOMAXPROCS(0)
 	params := fmt.Sprintf("point=%s consumer=%s buffer=%d closers=%d procs=%d", point, cons, buf, closers, procs)
 	var w *fsnotify.Watcher
@@ -104,6 +109,13 @@ func c06Case(c *core.Ctx, rng *rand.Rand, dir string, idx int, a *apiTrack, st *
 	var afterClose int64
 	evClosed, erClosed := make(chan struct{}), make(chan struct{})
 	kStop := int64(1 + rng.Intn(30))
+	gate := &errGate{hit: make(chan struct{}), open: make(chan struct{})}
+	var gateOnce sync.Once
+	openGate := func() {
+		gateOnce.Do(func() { close(gate.open) })
+		atomic.StoreInt32(&gateErrorSends, 0)
+	}
+	defer openGate()
 	var hold int32  // 1: the consumer takes nothing (overflow burst in progress)
 	var gotA int64  // events taken so far
 	// consumer: always notices closure (a receive-only view would never know); the
@@ -186,7 +198,39 @@ func c06Case(c *core.Ctx, rng *rand.Rand, dir string, idx int, a *apiTrack, st *
 			time.Sleep(100 * time.Microsecond)
 		}
 	}
-	if point != "idle" && point != "deleted-watch-pending" && point != "overflow-error-pending" {
+	if point == "overflow-close-at-last-event" {
+		// whoever sends the overflow error is held right before its select (everything queued in front of it
+		// has been received by then); Close is called in that state; the sender is let go once the Watcher is
+		// marked closed and - if the reader gets that far without the held sender - the channels are closed
+		sendGate.Store(gate)
+		atomic.StoreInt32(&gateErrorSends, 1)
+		atomic.StoreInt32(&hold, 1)
+		mq := maxQueued()
+		for k := 0; k < mq+300; k++ {
+			os.WriteFile(filepath.Join(dirs[0], fmt.Sprint("o", k)), nil, 0o644)
+		}
+		atomic.StoreInt32(&hold, 0)
+		select {
+		case <-gate.hit:
+			c.Count("overflow_close_at_last_event", 1)
+			go func() {
+				for i := 0; i < 400000; i++ {
+					if err := w.Add(dirs[1]); errors.Is(err, fsnotify.ErrClosed) {
+						break
+					}
+					time.Sleep(50 * time.Microsecond)
+				}
+				select {
+				case <-evClosed:
+				case <-time.After(50 * time.Millisecond): // only bounds the wait when the held sender is the reader itself
+				}
+				openGate()
+			}()
+		case <-time.After(twin.WatchdogTimeout):
+			c.Inconclusive(fmt.Sprintf("[%s] no error send was seen after the overflow burst", params))
+		}
+	}
+	if point != "idle" && point != "deleted-watch-pending" && point != "overflow-error-pending" && point != "overflow-close-at-last-event" {
 		mutDone.Add(1)
 		seed := rng.Int63()
 		go func() {
@@ -253,6 +297,9 @@ func c06Case(c *core.Ctx, rng *rand.Rand, dir string, idx int, a *apiTrack, st *
 	for k := 0; k < closers; k++ {
 		cwg.Add(1)
 		delay := time.Duration(rng.Intn(300)) * time.Microsecond
+		if point == "overflow-close-at-last-event" {
+			delay = time.Duration(rng.Intn(3)*rng.Intn(200)) * time.Microsecond
+		}
 		go func(k int) {
 			defer cwg.Done()
 			time.Sleep(delay)
